@@ -68,7 +68,7 @@ func run(c Case) (res vh.Result) {
 		res.Inconclusive = "world: " + err.Error()
 		return
 	}
-	if c.KillRefused {
+	if c.KillRefused || c.KillRefusedFirst {
 		defer simworld.Discard() // an HTTP-level refusal disconnects the framework; do not reuse this world
 	}
 	n := atomic.AddInt64(&caseSeq, 1)
@@ -454,26 +454,24 @@ func run(c Case) (res vh.Result) {
 	if crash := w.CoreCrash(); crash != "" {
 		return fail("core-crash", "the core died: %s", crash)
 	}
-	killCalls := 0
+	killCalls, refusedCalls := 0, 0
 	for _, cl := range w.Master.Calls()[killMark:] {
 		if cl.Type == "KILL" {
 			killCalls++
+			if cl.HTTP != 0 {
+				refusedCalls++
+			}
 		}
 	}
-	if c.KillRefused && !c.KeepTasks && killCalls == 0 {
-		// nothing had to be killed (every task was already gone): success is the right answer
+	if (c.KillRefused || c.KillRefusedFirst) && killCalls == 0 {
+		// nothing had to be killed (every task was already gone, or the tasks were kept): success is the right answer
 		res.Classes = append(res.Classes, "kill-refused-but-nothing-to-kill")
 	}
-	if c.KillRefusedFirst && !c.KeepTasks && killCalls >= 1 {
-		res.Classes = append(res.Classes, "first-kill-refused")
+	if refusedCalls > 0 {
+		// (also with keepTasks: the server drops that flag on its forced paths, the kills it then attempts count)
+		res.Classes = append(res.Classes, "kill-refused")
 		if derr == nil {
-			return fail("destroy-success-although-a-kill-was-refused", "the first of %d KILL calls was refused by the master, yet DestroyEnvironment reported success", killCalls)
-		}
-		return
-	}
-	if c.KillRefused && !c.KeepTasks && killCalls > 0 {
-		if derr == nil {
-			return fail("destroy-success-although-kills-refused", "every KILL call was refused by the master, yet DestroyEnvironment reported success")
+			return fail("destroy-success-although-kills-refused", "%d of %d KILL calls were refused by the master, yet DestroyEnvironment reported success", refusedCalls, killCalls)
 		}
 		return
 	}
